@@ -34,7 +34,7 @@ CLAIMS = {
          "Decided statically: every segment loop visits every consecutive pair, member loops every member (D2/D3); no certain fault on any kind/shape (A). NOT decided: the shoelace, segment-distance and point-distance formulas themselves, floating-point rounding, shapes larger than the enumerated ones.",
          "DESIGN.md §4 C10"),
  "C11": ("static analysis: abstract interpretation of every public quadtree method over receiver states x boundary arguments with postconditions (A, A-post), reject-before-write dominance on points-to effects (B3), quadtree cell tables (T9), closed-box predicate tables (T10)",
-         "Decided statically: no certain fault in Add/Remove/Find/Matching/KNearest*/InBound* on a never-populated, one-point, two-level or emptied tree with k in 0..3, short/long buffers, nil/non-nil filters; empty-tree queries return nil, Remove reports false, k=0 returns nothing (A-post); every write of Add is dominated by the passing edge of the bound test, so a rejected add changes nothing (B3); add/childIndex/visit agree on the child-index bits, comparators and sub-cells (T9); cell pruning and the in-bound filter are strict closed-box tests (T10). NOT decided: k-nearest answers, their order and the distance limit; that pointers pruned by distance are farther (a geometric argument); coincident points; histories longer than the enumerated ones.",
+         "Decided statically: no certain fault in Add/Remove/Find/Matching/KNearest*/InBound* on a never-populated, one-point, two-level or emptied tree with k in 0..3, short/long buffers, nil/non-nil filters; empty-tree queries return nil, Remove reports false, k=0 returns nothing (A-post); every write of Add is dominated by the passing edge of the bound test, so a rejected add changes nothing (B3); add/childIndex/visit agree on the child-index bits, comparators and sub-cells (T9); cell pruning and the in-bound filter are strict closed-box tests (T10). NOT decided: coincident points; histories longer than the enumerated ones; k > 2; floating-point rounding of the distance comparisons.",
          "DESIGN.md §4 C11"),
  "C12": ("static analysis: abstract interpretation over kinds x shapes (A), loop lint (D2), points-to no-write analysis of the simplifier configuration (B1)",
          "Decided statically: no certain fault for any kind x degenerate shape through every simplify entry (A); wrappers visit every member (D2); no simplify method writes its receiver, so a simplifier can be reused (B1). NOT decided: the Douglas-Peucker error bound and idempotence, monotonicity in the threshold, lines longer than the enumerated ones.",
@@ -74,7 +74,7 @@ EXTRA = {  # rules added after seeded changes were missed (DESIGN.md §11/§12);
  "C06": ("Equal same-kind check (K4), composition over identities and float terms (A-comp: Reverse permutation, Clone content, Bound/Extend/Union tight box with min/max selection and the path's order facts)", "orb.Equal compares g1.(K) only with g2.(K) (K4); for all coordinates and the enumerated small shapes: Reverse puts the vertex from position n-1-i at position i (so twice is the identity), a clone has the kind, nesting, lengths and the very coordinates of the original, and the Min/Max of every kind's Bound (and of Bound.Extend/Union) are selected among the vertices' coordinates and ordered against all of them, the empty bound exactly without vertices (A-comp)"),
  "C08": ("box-intersection table (T11), composition with the member clipper uninterpreted and vertex/order-fact judge of the ring clipper (A-comp)", "clip.Bound is max-of-mins / min-of-maxes of both operands on both axes (T11); MultiPolygon/Polygon/Collection are the members' non-empty clips in order, each member clipped once against the box; for rings of up to 3 (thorough 4) unknown vertices every result vertex that is an input vertex is placed inside the box by the path's comparisons, every other result vertex lies on a box line, and every input vertex the path places inside is in the result (A-comp)"),
  "C07": ("composition with the line clipper uninterpreted and vertex/order-fact judge of the line clipper (A-comp)", "MultiLineString/Collection are the concatenation of the members' clipped pieces in order; for lines of up to 2 (thorough 3) unknown vertices, closed and open box: every result vertex that is an input vertex is placed inside the box by the path's comparisons, every other result vertex lies on a box line, every input vertex the path places inside is in the result, travel order kept (A-comp; interpolated coordinates are left unknown)"),
- "C11": ("multi-step abstract interpretation of Add/Remove histories with a list model per path and order facts over terms (A-comp)", "for 15 (thorough 22) histories of up to 6 operations over points with unknown coordinates in a tree with an unknown bound: Remove answers true exactly for a stored pointer, InBound over the tree's bound returns exactly the pointers added and not removed, InBound over an unknown box returns exactly the stored pointers the path's comparisons place inside it, Find returns nil exactly on an empty tree and otherwise a stored pointer that no looked-at pointer beats (A-comp; two different inputs are taken to be different points; pruning by distance is not judged)"),
+ "C11": ("multi-step abstract interpretation of Add/Remove histories with a list model per path and order facts over terms (A-comp)", "for 15 (thorough 22) histories of up to 6 operations over points with unknown coordinates in a tree with an unknown bound: Remove answers true exactly for a stored pointer, InBound over the tree's bound returns exactly the pointers added and not removed, InBound over an unknown box returns exactly the stored pointers the path's comparisons place inside it, Find returns nil exactly on an empty tree and otherwise a stored pointer such that every other stored pointer is no closer - by the comparisons made on the path or, when it was pruned without a look, because the path places it outside the square of half-width sqrt(D) around the query for a D that is at least the answer's squared distance; KNearest (k = 1, 2, with and without a distance limit) returns min(k, stored) stored pointers, nearest first, each strictly within the limit, and every stored pointer left out is no closer than the last one returned or outside the limit, by the same two arguments (A-comp; two different inputs are taken to be different points)"),
  "C04": ("trim-before-test sibling rule over SSA (T4b)", "every typed wkt.Unmarshal* hands only trimmed text to the keyword test and the parser (T4b)"),
  "C12": ("area-flag sibling table (T12), compaction-index lint (H7), abstract interpretation of the three simplifiers with the distance/area measures uninterpreted (A-comp)", "rings are simplified with area=true and lines with area=false (T12); kept rings/polygons are stored at the write counter (H7); for lines and rings of up to 5 (thorough 6) unknown vertices, open and closed: the result is a subsequence of the input keeping the first and last vertex, radial neighbours were measured farther apart than the threshold, Visvalingam never returns fewer than the minimum count and keep-N exactly N (A-comp)"),
  "C14": ("range-grow lint (L5), dispatch-delegation check over SSA (K6)", "no loop appends to the slice it ranges over (L5); tilecover.Geometry hands a value of kind K to tilecover.K and to no other kind's function (K6); Collection, MultiPolygon and MultiLineString cover every member exactly once into the result (A-comp)"),
@@ -82,7 +82,7 @@ EXTRA = {  # rules added after seeded changes were missed (DESIGN.md §11/§12);
  "C16": ("endpoint-order table (T8b), compaction-index lint (H7), composition with clipRings/smartWrap/polygonContains uninterpreted (A-comp)", "sortableEndpoints.Less orders each side along its varying axis counter-clockwise with an identical tie-break (T8b); Polygon/MultiPolygon assemble wrapped polygons, untouched outer rings and untouched holes in that order, each hole attached through the containment test against the complete list; addToMultiPolygon attaches a ring to the first polygon that contains it (A-comp)"),
  "C17": ("interval enumeration with postcondition (A-post), abstract interpretation of Resample with the distance function uninterpreted and results as rational functions (A-comp)", "a non-positive interval returns nil (A-post); for lines of 2..3 (thorough 4) unknown vertices and N = 1..4 (6): N points, first and last vertex kept, the k-th point is the point of the ORIGINAL line at k/(N-1) of its length as a rational function of coordinates and segment lengths (segment lengths taken positive) (A-comp)"),
  "C18": ("bound-as-polygon check (K5), composition with ringArea/distance uninterpreted and results as rational functions of the parts (A-comp)", "every generic measure handles a Bound through ToRing()/ToPolygon() (K5); polygon area = |outer| - sum |hole|, multi-polygon and collection area = sum over members, geodesic length = the distance function summed over every segment once, as rational functions of the uninterpreted parts (A-comp)"),
- "C10": ("composition with the parts' formulas uninterpreted and results as rational functions of the parts (A-comp)", "polygon area = |outer| - sum |hole| with the matching area-weighted centroid, multi-polygon/collection area = sum over (top-dimensional) members with the area-weighted centroid, length = distance summed over every segment once, distance-from = a measured segment/point distance that the path's comparisons establish as the smallest, every segment measured once (A-comp)"),
+ "C10": ("composition with the parts' formulas uninterpreted and results as rational functions of the parts (A-comp)", "polygon area = |outer| - sum |hole| with the matching area-weighted centroid, multi-polygon/collection area = sum over (top-dimensional) members with the area-weighted centroid, length = distance summed over every segment once, distance-from = a measured segment/point distance that the path's comparisons establish as the smallest, every segment measured once; line and multi-line centroids are the length-weighted means of segment midpoints / member centroids, the multi-point centroid the mean of the points (A-comp)"),
  "C20": ("bound-as-polygon (K5), dispatch-delegation (K6), compaction-index (H7), make-then-append (L4), range-grow (L5) lints", "the generic Geometry functions of clip, smartclip, project and tilecover hand kind K to the package's function K (K6); Bound arms of measures/encoders delegate to the polygon form (K5)"),
 }
 
